@@ -270,6 +270,64 @@ func c14(c *ev.Ctx) {
 			}
 		}
 	}
+	// (3b) literals of different kinds whose printed forms coincide, in one script:
+	// each still denotes what it spells (and names stay names)
+	forms := []string{"2.5", "70000", "65535", "65536", "100000.25", "abc", "steve", "true", "null", "x", "len", "1", "0.5", "9223372036854775807"}
+	n = c.Pick(1500, 60000)
+	c.ParFor(n, func(i int) {
+		id := fmt.Sprintf("alike/%d", i)
+		if !c.Want(id) {
+			return
+		}
+		r := c.Rng("alike", i)
+		f := forms[r.Intn(len(forms))]
+		type lit struct{ text, want string }
+		var lits []lit
+		lits = append(lits, lit{strconv.Quote(f), "STRING:" + f})
+		if _, err := strconv.ParseInt(f, 10, 64); err == nil {
+			lits = append(lits, lit{f, "INTEGER:" + f})
+		} else if fv, err := strconv.ParseFloat(f, 64); err == nil && strings.Contains(f, ".") {
+			lits = append(lits, lit{f, "FLOAT:" + strconv.FormatFloat(fv, 'f', -1, 64)})
+		}
+		if _, err := strconv.ParseFloat(f, 64); err != nil {
+			lits = append(lits, lit{"/" + f + "/", "REGEXP:" + f})
+		}
+		lits = append(lits, lit{"'" + f + "'", "STRING:" + f})
+		r.Shuffle(len(lits), func(a, b int) { lits[a], lits[b] = lits[b], lits[a] })
+		var sb strings.Builder
+		var wants []string
+		for k, l := range lits {
+			fmt.Fprintf(&sb, "v%d = %s; ", k, l.text)
+			wants = append(wants, l.want)
+		}
+		sb.WriteString("r = [")
+		for k := range lits {
+			if k > 0 {
+				sb.WriteString(", ")
+			}
+			fmt.Fprintf(&sb, "type(v%d), string(v%d)", k, k)
+		}
+		sb.WriteString("]; return r;")
+		script := sb.String()
+		var want []string
+		for _, w := range wants {
+			tp := strings.ToLower(w[:strings.Index(w, ":")])
+			want = append(want, tp, w[strings.Index(w, ":")+1:])
+		}
+		wantDesc := "ARRAY:[" + strings.Join(want, ", ") + "]"
+		c.Case(script, true)
+		for _, noOpt := range []bool{false, true} {
+			evr, err := eng.New(script, eng.Options{NoHook: true, NoOptimize: noOpt})
+			got := "rejected"
+			if err == nil {
+				got = evr.Exec(nil).Desc()
+			}
+			if got != wantDesc {
+				c.Violation(id, "literals that print alike", map[string]interface{}{"summary": fmt.Sprintf("%s (noopt=%v) gives %s, expected %s", script, noOpt, got, wantDesc), "script": script})
+				return
+			}
+		}
+	})
 	// (4) division vs regexp after every token class
 	divAfter := []string{"x", "foo_1", "$y", ")", "]", "3", "2.5"}
 	reAfter := []string{"(", "[", "{", "}", ",", ";", ":", "?", "=", "==", "!=", "+", "-", "*", "%", "<", ">", "<=", ">=", "&&", "||", "~=", "!~", "!", "return", "in", "case", "true", "false", "\"s\"", "'s'", "..", "+=", "**", "if", "else", "√"}
